@@ -193,7 +193,7 @@ def run(res, replay=None, visit_only=False):
                         script.append(" ".join([{"getf": "getft", "getb": "getbt", "ginfo": "ginfot", "dinfo": "dinfot"}[w[0]]] + w[1:]))
             names = expected_names(s, m, v)
             jobs.append((m, v, buf, script, len(img), names, len(mlines), len(ilines), cvexp, crexp))
-            mlines += [model_msg_line(s, m), "buf " + hx(buf)] + [x if not x.startswith(("cvisit", "crange")) else "use x" for x in script]
+            mlines += [model_msg_line(s, m), "buf " + hx(buf)] + [x if not x.startswith("cvisit") else "use x" for x in script]
             ilines += ["use " + m.name, "buf " + hx(buf)] + script
         mout = model.run(mlines)
         for (cxx, std), exe in mc.exes.items():
@@ -223,6 +223,8 @@ def run(res, replay=None, visit_only=False):
                         want = "n=%d " % cnt + "".join("E@%d " % a_ for a_ in eaddr[pos:pos + cnt]) + "c=%d" % fin
                         if b2 != want:
                             bad = ("cursor-range", "`%s`: entries/cursor `%s`, expected `%s` (random-access entry addresses)" % (op, b2, want))
+                        elif a != b2:
+                            bad = ("cursor-range-model", "`%s`: implementation `%s`, CursorRange model `%s`" % (op, b2, a))
                     elif op.startswith("cvisit"):
                         if b2 != cvexp[j]:
                             bad = ("composite-visit", "`%s`: visit_children of the composite reported members `%s`, the schema's "
